@@ -103,6 +103,34 @@ func c07R1(p *Prog, r *Report) {
 		}
 		return true
 	})
+	// the callee expression: a local assigned from g.qualMethod(definition)
+	var qualObj types.Object
+	ast.Inspect(fi.Decl, func(n ast.Node) bool {
+		as, ok := n.(*ast.AssignStmt)
+		if !ok || len(as.Lhs) != 1 || len(as.Rhs) != 1 {
+			return true
+		}
+		if call, ok := ast.Unparen(as.Rhs[0]).(*ast.CallExpr); ok {
+			if f, ok := calleeObj(info, call).(*types.Func); ok && f.Name() == "qualMethod" {
+				if id0, ok := as.Lhs[0].(*ast.Ident); ok {
+					qualObj = info.ObjectOf(id0)
+				}
+			}
+		}
+		return true
+	})
+	isQualCall := func(e ast.Expr) bool {
+		call, ok := ast.Unparen(e).(*ast.CallExpr)
+		if !ok {
+			return false
+		}
+		sel, ok := ast.Unparen(call.Fun).(*ast.SelectorExpr)
+		if !ok || sel.Sel.Name != "Call" {
+			return false
+		}
+		id0, ok := ast.Unparen(sel.X).(*ast.Ident)
+		return ok && qualObj != nil && info.ObjectOf(id0) == qualObj
+	}
 	// stmt := []jen.Code{ List(Id(name), Id(err)).Op(":=").Add(qual.Call(…)), If(Id(err).Op("!=").Nil()).Block(ret) }
 	okBind, okCheck, okOrder := false, false, false
 	ast.Inspect(blk.Body, func(n ast.Node) bool {
@@ -120,7 +148,7 @@ func c07R1(p *Prog, r *Report) {
 			if len(ids) == 1 {
 				if s, ok := constString(info, ids[0]); ok && s == errIdent && s != "_" {
 					if op := c0.Has("Op"); op != nil {
-						if o, _ := constString(info, op.Args[0]); o == ":=" && c0.Has("Add") != nil && strings.Contains(exprString(c0.Has("Add").Args[0]), "qual.Call(") {
+						if o, _ := constString(info, op.Args[0]); o == ":=" && c0.Has("Add") != nil && isQualCall(c0.Has("Add").Args[0]) {
 							okBind = true
 						}
 					}
@@ -154,7 +182,7 @@ func c07R1(p *Prog, r *Report) {
 	okBare := true
 	ast.Inspect(fi.Decl, func(n ast.Node) bool {
 		call, ok := n.(*ast.CallExpr)
-		if !ok || !strings.HasPrefix(exprString(call), "qual.Call(") {
+		if !ok || !isQualCall(call) {
 			return true
 		}
 		inBlk := call.Pos() >= blk.Pos() && call.End() <= blk.End()
@@ -379,9 +407,24 @@ func c07R3(p *Prog, r *Report) {
 	if fi := p.Func("builder.(ErrorPath).WrapErrorsUsing"); fi != nil {
 		info := fi.Pkg.TypesInfo
 		ok := false
+		// the accumulator is the variable handed to <pkg>.Wrap(…).Call(acc...)
+		var acc types.Object
+		for _, c := range p.Chains() {
+			if c.Encl == fi && c.Has("Qual") != nil && c.Has("Call") != nil {
+				if s, _ := constString(info, c.Has("Qual").Args[1]); s == "Wrap" && len(c.Has("Call").Args) == 1 {
+					if id0, isID := ast.Unparen(c.Has("Call").Args[0]).(*ast.Ident); isID {
+						acc = info.ObjectOf(id0)
+					}
+				}
+			}
+		}
+		isAcc := func(e ast.Expr) bool {
+			id0, isID := ast.Unparen(e).(*ast.Ident)
+			return isID && acc != nil && info.ObjectOf(id0) == acc
+		}
 		ast.Inspect(fi.Decl, func(n ast.Node) bool {
 			as, isAs := n.(*ast.AssignStmt)
-			if isAs && len(as.Lhs) == 1 && exprString(as.Lhs[0]) == "args" {
+			if isAs && len(as.Lhs) == 1 && isAcc(as.Lhs[0]) {
 				// (a) args = append([]jen.Code{errStmt}, args...)  — prepend
 				if call, isC := ast.Unparen(as.Rhs[0]).(*ast.CallExpr); isC && len(call.Args) == 2 {
 					if cl, isCl := ast.Unparen(call.Args[0]).(*ast.CompositeLit); isCl && len(cl.Elts) == 1 && isParamIdent(info, fi, cl.Elts[0], 1) {
@@ -393,9 +436,9 @@ func c07R3(p *Prog, r *Report) {
 					ok = true
 					ast.Inspect(fi.Decl, func(m ast.Node) bool {
 						a2, isA2 := m.(*ast.AssignStmt)
-						if isA2 && a2 != as && len(a2.Lhs) == 1 && exprString(a2.Lhs[0]) == "args" {
+						if isA2 && a2 != as && len(a2.Lhs) == 1 && isAcc(a2.Lhs[0]) {
 							c2, isC2 := ast.Unparen(a2.Rhs[0]).(*ast.CallExpr)
-							if !isC2 || len(c2.Args) < 1 || exprString(c2.Args[0]) != "args" {
+							if !isC2 || len(c2.Args) < 1 || !isAcc(c2.Args[0]) {
 								ok = false
 							}
 						}
@@ -409,7 +452,7 @@ func c07R3(p *Prog, r *Report) {
 		wrapOK := false
 		for _, c := range p.Chains() {
 			if c.Encl == fi && c.Has("Qual") != nil && c.Has("Call") != nil {
-				if s, _ := constString(info, c.Has("Qual").Args[1]); s == "Wrap" && exprString(c.Has("Call").Args[0]) == "args" {
+				if s, _ := constString(info, c.Has("Qual").Args[1]); s == "Wrap" && isAcc(c.Has("Call").Args[0]) {
 					wrapOK = true
 				}
 			}
